@@ -243,6 +243,23 @@ def _short(d):
     return f"{d[0]} {d[1]}"
 
 
+# functions whose mechanical mutants are swept in the thorough tier (coverage evidence, see sa/mutate.py)
+MUTATION_SCOPE = ['adverbs:eval_adverb_over',
+                  'adverbs:eval_adverb_scan_over',
+                  'adverbs:get_adverb_fn',
+                  'adverbs:eval_adverb_each2',
+                  'adverbs:eval_dyad_adverb_iterate',
+                  'adverbs:eval_adverb_scan_iterating',
+                  'interpreter:chain_adverbs',
+                  'dyads:eval_dyad_add',
+                  'dyads:eval_dyad_subtract',
+                  'dyads:eval_dyad_multiply',
+                  'dyads:eval_dyad_divide',
+                  'dyads:eval_dyad_minimum',
+                  'dyads:eval_dyad_maximum',
+                  'types:is_adverb',
+                  'types:get_adverb_arity']
+
 SEEDS = [
     Seed("remainder-shortcut", "fault", "adverbs", "        elif safe_eq(op.a, '&') and a.ndim == 1:\n            return np_backend.min(a)",
          "        elif safe_eq(op.a, '!'):\n            return np_backend.fmod.reduce(a)\n        elif safe_eq(op.a, '&') and a.ndim == 1:\n            return np_backend.min(a)", rule="C02-R1"),
